@@ -5,6 +5,7 @@ package sim
 // written into the trace file, so a replay needs nothing else.
 
 import (
+	"strings"
 	"encoding/json"
 	"fmt"
 	"math/rand/v2"
@@ -49,11 +50,20 @@ func (t *TemplateDef) Affinity() *corev1.Affinity {
 		return req(corev1.NodeSelectorTerm{MatchExpressions: []corev1.NodeSelectorRequirement{expr("zone", corev1.NodeSelectorOpExists)}})
 	case "noExclude":
 		return req(corev1.NodeSelectorTerm{MatchExpressions: []corev1.NodeSelectorRequirement{expr("exclude", corev1.NodeSelectorOpDoesNotExist)}})
+	case "hasZone-or-not":
+		// matches every node; its only purpose is a non-nil affinity in the template
+		return req(
+			corev1.NodeSelectorTerm{MatchExpressions: []corev1.NodeSelectorRequirement{expr("zone", corev1.NodeSelectorOpExists)}},
+			corev1.NodeSelectorTerm{MatchExpressions: []corev1.NodeSelectorRequirement{expr("zone", corev1.NodeSelectorOpDoesNotExist)}},
+		)
 	case "two-terms":
 		return req(
 			corev1.NodeSelectorTerm{MatchExpressions: []corev1.NodeSelectorRequirement{expr("zone", corev1.NodeSelectorOpIn, "a")}},
 			corev1.NodeSelectorTerm{MatchExpressions: []corev1.NodeSelectorRequirement{expr("pool", corev1.NodeSelectorOpIn, "x")}},
 		)
+	case "nameNotN1":
+		// an exclusion by node name: valid, unusual; the per-node pin must replace it
+		return req(corev1.NodeSelectorTerm{MatchFields: []corev1.NodeSelectorRequirement{expr("metadata.name", corev1.NodeSelectorOpNotIn, "n01")}})
 	case "preferred-only":
 		return &corev1.Affinity{NodeAffinity: &corev1.NodeAffinity{PreferredDuringSchedulingIgnoredDuringExecution: []corev1.PreferredSchedulingTerm{{Weight: 1, Preference: corev1.NodeSelectorTerm{MatchExpressions: []corev1.NodeSelectorRequirement{expr("zone", corev1.NodeSelectorOpIn, "a")}}}}}}
 	}
@@ -141,6 +151,7 @@ type CanaryDef struct {
 	NoRestartsDuration  string            `json:"noRestartsDuration,omitempty"`
 	ValidationMode      string            `json:"validationMode,omitempty"`
 	NodeSelector        map[string]string `json:"nodeSelector,omitempty"`
+	NodeSelectorExpr    []string          `json:"nodeSelectorExpr,omitempty"` // "key op v1,v2" with op In/NotIn/Exists/DoesNotExist
 	AntiAffinityKeys    []string          `json:"nodeAntiAffinityKeys,omitempty"`
 	AutoPauseEnabled    *bool             `json:"autoPauseEnabled,omitempty"`
 	AutoPauseMaxRestarts *int32           `json:"autoPauseMaxRestarts,omitempty"`
@@ -181,8 +192,16 @@ func (c *CanaryDef) Object() *edsv1.ExtendedDaemonSetSpecStrategyCanary {
 		ValidationMode:       edsv1.ExtendedDaemonSetSpecStrategyCanaryValidationMode(c.ValidationMode),
 		NodeAntiAffinityKeys: c.AntiAffinityKeys,
 	}
-	if c.NodeSelector != nil {
+	if c.NodeSelector != nil || len(c.NodeSelectorExpr) > 0 {
 		o.NodeSelector = &metav1.LabelSelector{MatchLabels: c.NodeSelector}
+		for _, e := range c.NodeSelectorExpr {
+			f := strings.Fields(e)
+			req := metav1.LabelSelectorRequirement{Key: f[0], Operator: metav1.LabelSelectorOperator(f[1])}
+			if len(f) > 2 {
+				req.Values = strings.Split(f[2], ",")
+			}
+			o.NodeSelector.MatchExpressions = append(o.NodeSelector.MatchExpressions, req)
+		}
 	}
 	if c.AutoPauseEnabled != nil || c.AutoPauseMaxRestarts != nil || c.MaxSlowStartDuration != "" {
 		o.AutoPause = &edsv1.ExtendedDaemonSetSpecStrategyCanaryAutoPause{Enabled: c.AutoPauseEnabled, MaxRestarts: c.AutoPauseMaxRestarts, MaxSlowStartDuration: durPtr(c.MaxSlowStartDuration)}
@@ -283,6 +302,8 @@ type Config struct {
 	SettingEdits bool    `json:"settingEdits"`
 	EDSDelete    bool    `json:"edsDelete"`
 	StrategyEdits bool   `json:"strategyEdits"`
+	Evictions    bool    `json:"evictions,omitempty"` // daemon pods are deleted by somebody else (drain, eviction)
+	ModeEdits    bool    `json:"modeEdits,omitempty"` // the user flips canary.validationMode on the defaulted object
 	MigrationEdits bool  `json:"migrationEdits,omitempty"` // the old-daemonset annotation is removed / put back
 	Policy       string  `json:"policy"` // uniform, chaser, starver
 	Starve       string  `json:"starve,omitempty"`
@@ -381,7 +402,7 @@ func genTemplate(r *rand.Rand, letter string, fancy float64) *TemplateDef {
 		}
 	}
 	if chance(r, fancy) {
-		t.AffinityKind = pick(r, "zoneA", "notPoolY", "hasZone", "noExclude", "two-terms", "preferred-only")
+		t.AffinityKind = pick(r, "zoneA", "notPoolY", "hasZone", "noExclude", "two-terms", "preferred-only", "nameNotN1")
 	}
 	if chance(r, fancy) {
 		t.Tolerate = []string{pick(r, "dedicated", "evict", "*")}
